@@ -136,7 +136,7 @@ def audit(pid, build: Build):
             if bad:
                 problems.append({"theorem": e["name"], "problem": f"non-standard axioms {bad}"})
                 continue
-            if e["name"] in lock and lock[e["name"]] != j["statement"]:
+            if e["name"] in lock and lock[e["name"]]["hash"] != j["hash"]:
                 problems.append({"theorem": e["name"], "problem": "statement differs from theorems.lock",
                                  "now": j["statement"][:400]})
                 continue
@@ -342,7 +342,7 @@ def update_lock(reg):
             print(line)
             continue
         if j.get("exists"):
-            lock[j["name"]] = j["statement"]
+            lock[j["name"]] = {"hash": j["hash"], "statement": j["statement"]}
             bad = sorted(set(j["axioms"]) - STD_AXIOMS)
             if bad or not j.get("theorem"):
                 print("WARNING", j["name"], bad, j.get("theorem"))
